@@ -28,6 +28,10 @@ func runCaseRealtime(c *Case) Verdict {
 				done <- Verdict{Kind: "inconclusive", Prop: c.Prop, Reason: fmt.Sprint("real-time confirmation panicked: ", r)}
 			}
 		}()
+		if c.Engine == "actors" || c.Prop == "C08" {
+			done <- execActors(c, false, true)
+			return
+		}
 		e := NewEngine(c)
 		e.Realtime = true
 		if err := e.Start(); err != nil {
